@@ -71,7 +71,7 @@ type c11Params struct {
 	// NullAtCreate: register fields given an explicit null at create (collection API only). The null
 	// is a write: the field gets its genesis block (and, when individually encrypted, its key) there.
 	NullAtCreate []string `json:"null_at_create,omitempty"`
-	Ops        []c11Op  `json:"ops"`
+	Ops          []c11Op  `json:"ops"`
 	// Receiver: "keyless" | "keys-event" (harness answers enc-keys-request with A's key blocks) |
 	// "keys-store" (A's key blocks are put into B's /db/enc before the merge) | "partial" (keys of PartialKeys only)
 	Receiver    string   `json:"receiver"`
@@ -517,8 +517,8 @@ type c11Run struct {
 	late    map[string]bool // field was absent at create and first written by an update
 	// nullAtCreate: field was given an explicit null at create (its first value arrives by an update)
 	nullAtCreate map[string]bool
-	flagged map[string]bool
-	ctlMiss bool
+	flagged      map[string]bool
+	ctlMiss      bool
 	// unknown: register fields whose value on the writer is decided by a tie-break the model does not
 	// follow (a clear-origin write was merged and the writer has not written the field since)
 	unknown map[string]bool
